@@ -3,6 +3,7 @@
 package lstore
 
 import (
+	"sort"
 	"context"
 	"fmt"
 	"io"
@@ -549,6 +550,7 @@ type Region struct {
 	Readers     int  // open Get buffers of the current incarnation
 	Writers     int  // in-flight writers of the current incarnation
 	InList      bool // Release() by the block list not yet called
+	Seq         int  // position of the current incarnation in the order in which blocks were handed out
 }
 
 // TrackingAllocator decorates the real BlockAllocator with a region ownership monitor.
@@ -561,8 +563,11 @@ type TrackingAllocator struct {
 	NewBlockFailures int
 	// FailNewBlock is a fault budget: while > 0 each NewBlock may fail (choice point).
 	FailNewBlock int
+	// FailNext makes the next NewBlock fail (deterministically: an operation of a sequential history).
+	FailNext bool
 	Violations   []string
 	Reattached   int         // successful NewBlockAtLocation calls (restart)
+	seq          int
 	Releases     int         // Block.Release calls made by the block list (volatile: pops)
 	ReleaseTimes []time.Time // virtual time of each such call
 	// LastWrittenState returns the most recent durably written state (persistent only).
@@ -624,7 +629,8 @@ func (a *TrackingAllocator) adopt(b local.Block, loc *pb.BlockLocation) local.Bl
 		}
 	}
 	r.Incarnation++
-	r.Live, r.InList, r.Readers, r.Writers = true, true, 0, 0
+	a.seq++
+	r.Live, r.InList, r.Readers, r.Writers, r.Seq = true, true, 0, 0, a.seq
 	tb := &trackedBlock{Block: b, a: a, region: r, inc: r.Incarnation}
 	a.blocks = append(a.blocks, tb)
 	return tb
@@ -632,6 +638,11 @@ func (a *TrackingAllocator) adopt(b local.Block, loc *pb.BlockLocation) local.Bl
 
 // NewBlock implements BlockAllocator.
 func (a *TrackingAllocator) NewBlock() (local.Block, *pb.BlockLocation, error) {
+	if a.FailNext {
+		a.FailNext = false
+		a.NewBlockFailures++
+		return nil, nil, status.Error(codes.Unavailable, "injected allocation failure")
+	}
 	if a.FailNewBlock > 0 && vsched.Choose("fault", 2) == 1 {
 		a.FailNewBlock--
 		a.NewBlockFailures++
@@ -669,6 +680,34 @@ func (a *TrackingAllocator) FreeRegions() int {
 		}
 	}
 	return a.Geo.BlockCount() - live
+}
+
+// PoppedNotReleased lists regions that the block list can no longer own yet never handed back, judged without
+// consulting the list's own bookkeeping: the list is a FIFO (blocks leave it in the order in which the allocator
+// handed them out), so every block handed out BEFORE the oldest block that the given state file lists has been
+// popped. To be called when nothing is pending (release wake-up not ready): by then each popped block must have
+// been released. Returns nil when the state lists no block that is currently live.
+func (a *TrackingAllocator) PoppedNotReleased(st *pb.PersistentState) []string {
+	if st == nil {
+		return nil
+	}
+	oldest := -1
+	for _, bs := range st.Blocks {
+		if r := a.Regions[bs.BlockLocation.OffsetBytes]; r != nil && r.Live && (oldest < 0 || r.Seq < oldest) {
+			oldest = r.Seq
+		}
+	}
+	if oldest < 0 {
+		return nil
+	}
+	var out []string
+	for _, r := range a.Regions {
+		if r.Live && r.InList && r.Seq < oldest {
+			out = append(out, fmt.Sprintf("region at offset %d (handed out as number %d, before the oldest block of the current state file, number %d) left the block list but was never released", r.Offset, r.Seq, oldest))
+		}
+	}
+	sort.Strings(out)
+	return out
 }
 
 // LiveInList counts regions still owned by the block list.
